@@ -1,0 +1,56 @@
+//go:build verif
+// +build verif
+
+package config
+
+import (
+	"github.com/samaritan-proxy/samaritan/pb/config/bootstrap"
+	"github.com/samaritan-proxy/samaritan/pb/config/service"
+)
+
+// Re-exports for the verification harness (/verif). Compiled only with -tags verif.
+
+// VerifNewStore builds a Config without bootstrap validation or dynamic source: only the
+// service table and the event channel, which the three update handlers below feed.
+func VerifNewStore(evtLen int) *Config {
+	return &Config{
+		Bootstrap: &bootstrap.Bootstrap{},
+		sws:       make(map[string]*serviceWrapper),
+		evtCh:     make(chan Event, evtLen),
+	}
+}
+
+// VerifDependencyUpdate is handleDependencyUpdate.
+func (c *Config) VerifDependencyUpdate(added, removed []*service.Service) {
+	c.handleDependencyUpdate(added, removed)
+}
+
+// VerifSvcConfigUpdate is handleSvcConfigUpdate.
+func (c *Config) VerifSvcConfigUpdate(name string, cfg *service.Config) {
+	c.handleSvcConfigUpdate(name, cfg)
+}
+
+// VerifSvcEndpointUpdate is handleSvcEndpointUpdate.
+func (c *Config) VerifSvcEndpointUpdate(name string, added, removed []*service.Endpoint) {
+	c.handleSvcEndpointUpdate(name, added, removed)
+}
+
+// VerifDump returns, per service, whether a config is present and the endpoint list (nil = unknown).
+func (c *Config) VerifDump() map[string]struct {
+	Config    *service.Config
+	Endpoints []*service.Endpoint
+} {
+	c.RLock()
+	defer c.RUnlock()
+	out := make(map[string]struct {
+		Config    *service.Config
+		Endpoints []*service.Endpoint
+	})
+	for name, sw := range c.sws {
+		out[name] = struct {
+			Config    *service.Config
+			Endpoints []*service.Endpoint
+		}{sw.Config, sw.Endpoints}
+	}
+	return out
+}
